@@ -83,6 +83,10 @@ def signature(vclass, detail):
         d = detail.get("diff") or {}
         first = (str(d.get("a", "")).strip().split() or ["?"])[0]
         return "%s|output differs at: %s" % (vclass, re.sub(r"\d+", "N", first))
+    if vclass == "HEADER_NOT_STANDALONE":
+        return "%s|%s|%s" % (vclass, detail.get("header"), _norm_diag((detail.get("alone") or {}).get("diag", "")))
+    if vclass == "FWD_MISMATCH":
+        return "%s|%s" % (vclass, detail.get("expected_line"))
     if vclass in ("GEN_FAIL", "GEN_HANG", "HANG_UNDER_FAULT"):
         return "%s|%s|%s" % (vclass, detail.get("exc"), re.sub(r"\d+", "N", (detail.get("tb_tail") or "")[-100:]))
     if vclass == "ENVIRONMENT_CHANGED_OUTPUT":
@@ -260,6 +264,12 @@ def evaluate_session(ctx, splan, want_events=False):
 def evaluate_case(ctx, case, want_events=False):
     """Evaluate an arbitrary case (used by replay and by the minimiser).  Returns a dict with
     `violations` (list of {class, sig, detail}) and the trace hashes of the executions involved."""
+    if "header_alone" in case:
+        v, detail = _oracle.judge_header_alone(ctx.builder, case["header_alone"], tuple(case["toolchain"]["a"]))
+        viol = []
+        if v == "HEADER_NOT_STANDALONE":
+            viol.append({"class": v, "sig": signature(v, detail), "detail": detail})
+        return {"twin": {"events": None}, "faulty": None, "violations": viol, "trace_hashes": [], "harness_error": detail if v == "HARNESS" else None, "inconclusive": v == "BOTH_REJECT"}
     if "session" in case:
         srec = evaluate_session(ctx, case, want_events=want_events)
         return {"twin": {"events": None}, "faulty": None, "session": srec, "violations": list(srec["violations"]), "trace_hashes": srec["trace_hashes"], "harness_error": srec.get("harness_error")}
